@@ -95,6 +95,19 @@ func newEngine(repo, specDir string, patterns []string) (*Engine, error) {
 			return SV{t: "0", typ: rtyp}
 		}
 	}
+	// os.Exit / log.Fatal end the process: nothing can recover from them (unlike a panic, which baseapp's runTx
+	// recovers), so reaching one is an obligation of its own unless the contract says `may_exit` (start-up code).
+	for _, name := range []string{"os.Exit", "log.Fatal", "log.Fatalf", "log.Fatalln"} {
+		e.nativeExterns[name] = func(fr *frame, args []SV, cur *State, rtyp types.Type) SV {
+			vc := fr.vc
+			if vc.con == nil || !vc.con.MayExit {
+				vc.oblige("safe", fmt.Sprintf("exit%d.unreachable", vc.count("exit")), fr.g, tFalse)
+			}
+			vc.assumes["os.Exit / log.Fatal end the path (process termination)"] = true
+			fr.g = tFalse
+			return fr.zeroResult(rtyp)
+		}
+	}
 	var err error
 	e.contracts, e.ghosts, e.files, err = loadContracts(repo, specDir)
 	if err != nil {
